@@ -34,6 +34,8 @@ def main():
             ctx.coverage["replay_of"] = a.replay
             mod.replay(ctx, data)
         else:
+            if hasattr(mod, "prebuild"):
+                mod.prebuild(ctx)   # e.g. regenerate coq/Gen/*.v from the current source
             ok = common.coq_obligations(ctx, mod.PROPS_FILE, getattr(mod, "COQ_TARGETS", ()), getattr(mod, "ALLOWED_AXIOMS", ()))
             if ctx.thorough and ok and getattr(mod, "COQCHK", True):
                 common.coqchk_cone(ctx, mod.PROPS_FILE)
